@@ -1243,6 +1243,17 @@ impl TreeMachine {
     }
 }
 
+/// the property whose clause an operation exercises (as an extra `[Cxx]` tag on a panic / hook report)
+fn op_owner(op: &str) -> &'static str {
+    match op {
+        "items" | "itemsfast" | "keys" | "values" | "slice" | "first" | "last" | "partial" | "partialfast" | "interleave" => "[C02] ",
+        "range" | "itemsrange" | "itemsfrom" | "partialrange" => "[C03] ",
+        "tryget" | "getitem" | "getmany" | "tryinsert" | "tryremove" | "removeitem" | "batchinsert" | "validateop" | "new" | "empty" | "default" => "[C10] ",
+        "check" => "[C04] ",
+        _ => "",
+    }
+}
+
 impl Machine for TreeMachine {
     fn exec(&mut self, ws: &[&str]) -> String {
         if self.dead {
@@ -1257,13 +1268,16 @@ impl Machine for TreeMachine {
                     .cloned()
                     .or_else(|| p.downcast_ref::<&str>().map(|s| s.to_string()))
                     .unwrap_or_default();
+                // on a map that has only seen the map-level API the call also fails the property that owns it
+                // (an iterator that panics does not "yield exactly the current entries")
+                let owner = if self.damaged { "" } else { op_owner(ws.first().copied().unwrap_or("")) };
                 if msg.contains("VERIF-HOOK") {
                     let tag = if self.damaged { "C15" } else { "C05" };
-                    self.fail(tag, format!("unchecked access outside its precondition in `R {}`: {}", ws.join(" "), msg));
+                    self.fail(tag, format!("{}unchecked access outside its precondition in `R {}`: {}", owner, ws.join(" "), msg));
                     return "ub".into();
                 }
                 let tag = if self.damaged { "C15" } else { "C01" };
-                self.fail(tag, format!("panic in `R {}`: {}", ws.join(" "), msg));
+                self.fail(tag, format!("{}panic in `R {}`: {}", owner, ws.join(" "), msg));
                 // the map may be in a torn state: leak it rather than run its destructor
                 if let Some(m) = self.map.take() {
                     std::mem::forget(m);
